@@ -50,5 +50,25 @@ def run(ck):
         tasks.append({"scen": "stack", "params": p, "strat": strat, "gran": "line" if i % 5 == 0 else "sync",
                       "facts": {"types": sorted(set(l["t"] for l in p["layers"]))}})
     ck.run_and_validate(tasks, TRACE)
+    # directed schedules with two preemptions (line granularity) around the hand-over / attempt-end / discard windows
+    rp = {"flavour": "manual", "policy": {"kind": "exc", "max_attempts": 3, "sleep": 100, "exponent": 1, "max_sleep": 1000},
+          "jobs": [{"script": ["E", "E", "V"], "S": 0, "K": 300, "K2": 300, "C": False}], "dur": 300, "horizon": 2500}
+    tp = {"flavour": "manual", "count": 1, "block": False,
+          "jobs": [{"S": 0, "D": 300, "K": None, "C": False}, {"S": 0, "D": 300, "K": 300, "C": True}], "horizon": 2500}
+    tasks_r, tasks_t = [], []
+    ns = range(2, 70, 4 if quick else 1)
+    ms = range(2, 40, 5 if quick else 1)
+    for a, b in (("env1", "can1"), ("can1", "env1"), ("RetryExecutor-r", "can1"), ("can1", "RetryExecutor-r"), ("can1", "cab1")):
+        for n in ns:
+            for m in ms:
+                tasks_r.append({"scen": "retry", "params": rp, "strat": ["phases", [[a, n], [b, m], [a, 10000]]],
+                                "gran": "line", "facts": c05.facts_of(rp)})
+    for a, b in (("env1", "can2"), ("can2", "env1"), ("ThrottleExecutor-t", "can2"), ("can2", "ThrottleExecutor-t")):
+        for n in ns:
+            for m in ms:
+                tasks_t.append({"scen": "throttle", "params": tp, "strat": ["phases", [[a, n], [b, m], [a, 10000]]],
+                                "gran": "line", "facts": {"block": False}})
+    ck.run_and_validate(tasks_r, c05.TRACE, nontrivial=lambda t, r: True)
+    ck.run_and_validate(tasks_t, c07.TRACE, nontrivial=lambda t, r: True)
     ck.assumptions += ["a start between CancelCall and CancelRet is not judged (the statement says 'afterwards')",
                        "forwarding is demanded for every inner future that was live when cancel() was issued and did not finish by itself meanwhile"]
